@@ -131,6 +131,9 @@ func enumPaths(fn *ssa.Function) (paths []*Path, overflow bool) {
 		}
 	}
 	rec(fn.Blocks[0])
+	if !overflow {
+		paths = expandClassifiers(paths)
+	}
 	return paths, overflow
 }
 
@@ -335,4 +338,169 @@ func plainDelta(in ssa.Instruction, f *types.Var) (int64, bool) {
 func isMakeInterface(v ssa.Value) bool {
 	_, ok := v.(*ssa.MakeInterface)
 	return ok
+}
+
+// ---------------------------------------------------------------------------------------------------------------------
+// Classifier helpers. A refactoring may move a decision into a pure helper that returns a constant per outcome
+// (`switch nextTransferStep(err, all, soFar, total) { case transferDone: ... }`, `if s.shouldReply(f) {`). A path that
+// took the branch `helper(args) == K` is then replaced by one path per path of the helper that returns K, carrying the
+// helper's own branch literals with its parameters bound to the arguments. Only helpers that do not exist on the pinned
+// tree are expanded, so the paths of the unchanged tree are what they were.
+// ---------------------------------------------------------------------------------------------------------------------
+
+var classifierMemo = map[*ssa.Function][]*Path{}
+
+// classifierPaths: the paths of h if h is a pure classifier (no stores, no go/defer/send/map updates; every path returns
+// one constant as its single result), else nil.
+func classifierPaths(h *ssa.Function) []*Path {
+	if h == nil || h.Blocks == nil || h.Parent() != nil || h.Object() == nil || knownOnPinnedTree(h) {
+		return nil
+	}
+	if ps, ok := classifierMemo[h]; ok {
+		return ps
+	}
+	classifierMemo[h] = nil
+	if h.Signature.Results().Len() != 1 {
+		return nil
+	}
+	pure := true
+	eachInstr(h, func(in ssa.Instruction) {
+		switch in.(type) {
+		case *ssa.Store, *ssa.MapUpdate, *ssa.Go, *ssa.Defer, *ssa.Send, *ssa.Panic:
+			pure = false
+		}
+	})
+	if !pure {
+		return nil
+	}
+	ps, overflow := enumPaths(h)
+	if overflow || len(ps) == 0 || len(ps) > 12 {
+		return nil
+	}
+	for _, q := range ps {
+		ret := q.Ret()
+		if ret == nil || len(ret.Results) != 1 {
+			return nil
+		}
+		if _, isK := stripConv(q.evalEnd(ret.Results[0])).(*ssa.Const); !isK {
+			return nil
+		}
+	}
+	classifierMemo[h] = ps
+	return ps
+}
+
+func expandClassifiers(paths []*Path) []*Path {
+	var out []*Path
+	changed := false
+	for _, path := range paths {
+		// constraints per classifier call on this path
+		type constraint struct {
+			eq  []string
+			neq []string
+			at  int
+		}
+		cons := map[*ssa.Call]*constraint{}
+		var order []*ssa.Call
+		note := func(call *ssa.Call, at int) *constraint {
+			if c, ok := cons[call]; ok {
+				return c
+			}
+			c := &constraint{at: at}
+			cons[call] = c
+			order = append(order, call)
+			return c
+		}
+		for _, l := range path.Lits {
+			if l.Subst != nil {
+				continue
+			}
+			if call, ok := l.Cond.(*ssa.Call); ok && classifierPaths(call.Call.StaticCallee()) != nil {
+				c := note(call, l.At)
+				if l.Pos {
+					c.eq = append(c.eq, "true")
+				} else {
+					c.eq = append(c.eq, "false")
+				}
+				continue
+			}
+			bo, ok := l.Cond.(*ssa.BinOp)
+			if !ok || (bo.Op != token.EQL && bo.Op != token.NEQ) {
+				continue
+			}
+			for _, pair := range [][2]ssa.Value{{bo.X, bo.Y}, {bo.Y, bo.X}} {
+				call, isCall := stripConv(pair[0]).(*ssa.Call)
+				k, isK := stripConv(pair[1]).(*ssa.Const)
+				if !isCall || !isK || k.Value == nil || classifierPaths(call.Call.StaticCallee()) == nil {
+					continue
+				}
+				c := note(call, l.At)
+				if (bo.Op == token.EQL) == l.Pos {
+					c.eq = append(c.eq, k.Value.ExactString())
+				} else {
+					c.neq = append(c.neq, k.Value.ExactString())
+				}
+			}
+		}
+		if len(order) == 0 {
+			out = append(out, path)
+			continue
+		}
+		changed = true
+		cur := []*Path{path}
+		for _, call := range order {
+			c := cons[call]
+			h := call.Call.StaticCallee()
+			subst := map[ssa.Value]ssa.Value{}
+			for i, q := range h.Params {
+				if i < len(call.Call.Args) {
+					subst[q] = call.Call.Args[i]
+				}
+			}
+			var next []*Path
+			for _, base := range cur {
+				for _, q := range classifierPaths(h) {
+					rv := stripConv(q.evalEnd(q.Ret().Results[0])).(*ssa.Const)
+					val := "nil"
+					if rv.Value != nil {
+						val = rv.Value.ExactString()
+					}
+					okq := true
+					for _, e := range c.eq {
+						if e != val {
+							okq = false
+						}
+					}
+					for _, e := range c.neq {
+						if e == val {
+							okq = false
+						}
+					}
+					if !okq {
+						continue
+					}
+					np := &Path{Fn: base.Fn, Blocks: base.Blocks, Panics: base.Panics, Lits: append([]PLit{}, base.Lits...)}
+					for _, ql := range q.Lits {
+						cond := ql.Cond
+						lit := Lit{Cond: cond, Pos: ql.Pos, If: ql.If, Subst: subst}
+						if r, isPrm := subst[stripConv(cond)]; isPrm {
+							lit.Cond, lit.Pos = normLit(r, ql.Pos)
+							lit.Subst = nil
+						}
+						np.Lits = append(np.Lits, PLit{Lit: lit, At: c.at})
+					}
+					next = append(next, np)
+				}
+			}
+			cur = next
+			if len(cur) > 64 {
+				cur = cur[:64]
+			}
+		}
+		out = append(out, cur...)
+	}
+	if !changed {
+		return paths
+	}
+	return out
 }
